@@ -139,6 +139,20 @@ def wl_history(ctx, rng, i):
         ctx.count("steps")
         ctx.see("step kinds", "%s:%s:%s" % (step, kind, ver))
         if step == "fresh":
+            if rng.random() < 0.6:
+                # the name is met in content before it is registered (refused, or passed through leniently): whatever the library
+                # concluded then must not outlive the registration
+                d0, x0 = instance(kind, ver, name, rng)
+                for kw0 in ({"allow_custom": False, "version": ver}, {"allow_custom": True, "version": ver}, {"allow_custom": True}, {"allow_custom": False}):
+                    parse_outcome(d0, x0, **kw0)
+                if kind == "observable" and ver == "2.1":
+                    try:
+                        import stix2
+                        stix2.parse_observable(json.loads(json.dumps(d0)), allow_custom=True, version=ver)
+                    except family():
+                        pass
+                looks_up(kind, ver, name)
+                ctx.count("names_parsed_before_registration")
             try:
                 cls = register(kind, ver, name)
             except family() as e:
@@ -254,6 +268,84 @@ def wl_history(ctx, rng, i):
         ctx.sample({"history": steps, "registered": [list(k) for k in model]})
 
 
+def common_probes(rng, kind, ver):
+    """(property, value) pairs for the properties every object of that kind has, valid and invalid alike"""
+    u = lambda v_: V.uuid_text(rng, v_)
+    ts = "2020-01-01T00:00:00.000Z"
+    md = lambda v_: "marking-definition--" + u(v_)
+    out = [("object_marking_refs", [md(4)]), ("object_marking_refs", [md(5)]), ("object_marking_refs", [md(1)]), ("object_marking_refs", [md(4), md(3)]),
+           ("object_marking_refs", ["identity--" + u(4)]), ("object_marking_refs", []), ("object_marking_refs", md(5)),
+           ("object_marking_refs", ["marking-definition--00000000-0000-0000-0000-000000000000"]), ("object_marking_refs", ["marking-definition--not-a-uuid"]),
+           ("object_marking_refs", [md(4).upper().replace("MARKING-DEFINITION", "marking-definition")]),
+           ("granular_markings", [{"marking_ref": md(5), "selectors": ["type"]}]), ("granular_markings", [{"marking_ref": md(4), "selectors": ["type"]}]),
+           ("granular_markings", [{"marking_ref": "identity--" + u(4), "selectors": ["type"]}]), ("granular_markings", [{"selectors": ["type"]}]),
+           ("granular_markings", [{"marking_ref": md(4), "selectors": []}]), ("granular_markings", [])]
+    if ver == "2.1":
+        out += [("granular_markings", [{"lang": "en", "selectors": ["type"]}]), ("granular_markings", [{"lang": "en", "marking_ref": md(4), "selectors": ["type"]}]),
+                ("extensions", {}), ("extensions", {"x-stixmon-unregistered-ext": {"a": 1}}), ("extensions", []), ("extensions", "e")]
+    if kind == "object":
+        out += [("created_by_ref", "identity--" + u(4)), ("created_by_ref", "identity--" + u(5)), ("created_by_ref", "identity--" + u(1)),
+                ("created_by_ref", md(4)), ("created_by_ref", "identity--00000000-0000-0000-0000-000000000000"), ("created_by_ref", "identity"),
+                ("created_by_ref", ["identity--" + u(4)]), ("created_by_ref", 5),
+                ("labels", ["a"]), ("labels", []), ("labels", "a"), ("labels", [1]), ("labels", [""]), ("labels", [["a"]]),
+                ("revoked", True), ("revoked", "true"), ("revoked", "yes"), ("revoked", 1), ("revoked", []),
+                ("external_references", [{"source_name": "s", "external_id": "1"}]), ("external_references", [{"source_name": "s"}]),
+                ("external_references", [{"external_id": "1"}]), ("external_references", [{"source_name": "capec", "external_id": "1"}]),
+                ("external_references", [{"source_name": "s", "url": "u", "hashes": {"MD5": "0" * 32}}]), ("external_references", [{"source_name": "s", "url": "u", "hashes": {"MD5": "zz"}}]),
+                ("external_references", {"source_name": "s", "external_id": "1"}), ("external_references", []),
+                ("created", "2020-01-01T00:00:00Z"), ("created", "2020-01-01T00:00:00.123456Z"), ("created", "2020-01-01"), ("created", 5),
+                ("modified", "2019-01-01T00:00:00.000Z"), ("modified", "2021-01-01T00:00:00.5Z"), ("modified", "junk"),
+                ("id", "identity--" + u(4)), ("x_not_declared", 1)]
+        if ver == "2.1":
+            out += [("confidence", 0), ("confidence", 100), ("confidence", 101), ("confidence", -1), ("confidence", "5"), ("confidence", 5.5), ("confidence", True),
+                    ("lang", "en"), ("lang", 5), ("lang", ""), ("spec_version", "2.0"), ("spec_version", "2.2"), ("spec_version", 2.1)]
+    else:
+        out += [("defanged", True), ("defanged", "true"), ("defanged", "junk"), ("defanged", 1), ("spec_version", "2.0"), ("spec_version", "2.2"),
+                ("created", ts), ("x_not_declared", 1)]
+    return out
+
+
+def common_property_parity(ctx, rng, kind, ver, name, d, w):
+    """The properties every object has are declared anew by the custom-type builders: they must be judged as on a built-in type."""
+    import stix2
+    if kind == "object":
+        twin = {"type": "identity", "id": "identity--" + V.uuid_text(rng, 4), "created": d["created"], "modified": d["modified"], "name": "n", "identity_class": "individual"}
+    else:
+        twin = {"type": "domain-name", "id": "domain-name--" + V.uuid_text(rng, 4), "value": "example.com"}
+    if ver == "2.1":
+        twin["spec_version"] = "2.1"
+    probes = common_probes(rng, kind, ver)
+    for prop, val in rng.sample(probes, 12):
+        res = []
+        for subject in (d, twin):
+            dd = json.loads(json.dumps(subject))
+            if prop == "id" and subject is d:
+                dd[prop] = val                      # an id of another type: refused on both (the twin gets a foreign one too)
+            elif prop == "id":
+                dd[prop] = "x-other--" + val.split("--")[1]
+            else:
+                dd[prop] = val
+            st, r = parse_outcome(dd, (lambda o: o), allow_custom=False, version=ver)
+            if st == "class" and not isinstance(r, dict):
+                try:
+                    res.append(("accepted", json.loads(r.serialize()).get(prop)))
+                except family():
+                    res.append(("refused-on-serialize", None))
+            else:
+                res.append(("refused", None))
+        ctx.ev()
+        ctx.count("common_property_parity_probes")
+        ctx.see("common properties probed", prop)
+        if res[0][0] == "accepted":
+            ctx.count("common_property_parity_accepted")
+        if res[0][0] != res[1][0] or (res[0][0] == "accepted" and not compare.generic_equal(res[0][1], res[1][1])):
+            ctx.violation("custom-type-common-property-judged-differently:" + prop,
+                          "%s custom %s %r with %s=%r is %s (%r), the built-in %s with the same value is %s (%r)" % (
+                              ver, kind, name, prop, val, res[0][0], res[0][1], twin["type"], res[1][0], res[1][1]),
+                          dict(w, property=prop, value=val, custom=res[0][0], builtin=res[1][0], builtin_type=twin["type"]))
+            return
+
+
 def check_parse(ctx, rng, kind, ver, name, cls, w):
     """exactly that class for exactly that version"""
     d, extract = instance(kind, ver, name, rng)
@@ -280,6 +372,8 @@ def check_parse(ctx, rng, kind, ver, name, cls, w):
             ctx.violation("registered-type-round-trip", "instance of %r does not survive serialize/parse" % name, dict(w, input=d))
     except family() as e:
         ctx.violation("registered-type-round-trip", "instance of %r: round trip raised %s" % (name, type(e).__name__), dict(w, input=d, exception=repr(e)))
+    if kind == "object" or (kind == "observable" and ver == "2.1"):
+        common_property_parity(ctx, rng, kind, ver, name, d, w)
     # a marking definition pairs a registered definition type with an object of exactly its class, also when the definition is
     # given as a library object
     if kind == "marking":
@@ -550,6 +644,10 @@ def floors(m, tier):
     out = []
     if c.get("steps", 0) < 800:
         out.append("fewer than 800 registration steps")
+    if c.get("common_property_parity_probes", 0) < 1000 or c.get("common_property_parity_accepted", 0) < 300:
+        out.append("fewer than 1000 common-property probes of custom types against built-in twins (or fewer than 300 accepted ones)")
+    if c.get("names_parsed_before_registration", 0) < 50:
+        out.append("fewer than 50 names met in content before their registration")
     if c.get("parses", 0) < 500:
         out.append("fewer than 500 parse checks")
     if c.get("refusals", 0) < 200:
